@@ -96,26 +96,19 @@ def _call(conv, f, *args):
 
 
 def _floats(a):
+    if isinstance(a, np.ma.MaskedArray):     # "missing" expressed as a mask is as good as NaN
+        a = a.astype(float).filled(np.nan)
     a = np.asarray(a, dtype=float)
     return ['nan' if not np.isfinite(v) else proto.rat(v) for v in a]
 
 
-def impl_table(cv, valids, vc, vs, vh):
-    """Every map on every index 0..size (one past the end included) + the six projections,
-    from the real emd functions; same token layout as the model's MAPS answer."""
-    import emd
-    from emd import _cycles_support as cs
-    cva = np.array(cv, dtype=int)
-    va = np.array(valids, dtype=bool)
-    cva.setflags(write=False)
-    sv = emd.cycles.get_subset_vector(va)
-    ch = emd.cycles.get_chain_vector(sv)
-    sv.setflags(write=False)
-    ch.setflags(write=False)
-    n, K = len(cv), len(sv)
+VDTYPES = {'bool': bool, 'int': int}     # selection flags as booleans or as 0/1 integers (the 'is_good' metric)
+
+
+def _table(cs, cva, sv, ch, vc, vs, vh):
+    n, K = len(cva), len(sv)
     S = int(sv.max()) + 1 if len(sv) else 0
     C = int(ch.max()) + 1 if len(ch) else 0
-    vc, vs, vh = (np.array(v, dtype=float) for v in (vc, vs, vh))
     t = [[str(int(v)) for v in sv], [str(int(v)) for v in ch]]
     t.append([_call(_scalar, cs.map_sample_to_cycle, cva, i) for i in range(n + 1)])
     t.append([_call(_lst, cs.map_cycle_to_samples, cva, k) for k in range(K + 1)])
@@ -136,7 +129,48 @@ def impl_table(cv, valids, vc, vs, vh):
             t.append(_floats(f(*args)))
         except Exception as e:  # noqa
             t.append(['E:' + err_kind(e)])
-    return {'S': S, 'C': C, 'table': t}
+    return S, C, t
+
+
+def impl_table(cv, valids, vc, vs, vh, vd='bool', prev=None):
+    """Every map on every index 0..size (one past the end included) + the six projections,
+    from the real emd functions; same token layout as the model's MAPS answer.
+
+    vd: dtype of the selection flags handed to get_subset_vector ('bool' or 0/1 'int').
+    prev: (cv', valids') of an EARLIER labelling of the same recording: the maps are first used on the label /
+    subset / chain arrays holding that labelling, then the SAME array objects are relabelled in place (where the
+    sizes allow) and the table is taken - the answers must describe the structure as it is now.
+    All arrays are handed over writable; whether a routine wrote into one is reported separately ('mutated')."""
+    import emd
+    from emd import _cycles_support as cs
+    va = np.array(valids, dtype=VDTYPES[vd])
+    va0 = va.copy()
+    sv = emd.cycles.get_subset_vector(va)
+    ch = emd.cycles.get_chain_vector(sv)
+    cva = np.array(cv, dtype=int)
+    vc, vs, vh = (np.array(v, dtype=float) for v in (vc, vs, vh))
+    if prev is not None and len(prev[0]) == len(cv):
+        pcv, pv = prev
+        cva = np.array(pcv, dtype=int)
+        psv = emd.cycles.get_subset_vector(np.array(pv, dtype=VDTYPES[vd]))
+        pch = emd.cycles.get_chain_vector(psv)
+        pS, pC = sizes(pv)
+        try:
+            _table(cs, cva, psv, pch, *(np.array(v, dtype=float) for v in default_vals(len(pv), pS, pC)))
+        except Exception:  # noqa - the earlier labelling is only a history, it is not judged
+            pass
+        cva[...] = cv                             # relabel the same array object in place
+        if np.shape(psv) == np.shape(sv) and np.shape(pch) == np.shape(ch):
+            psv[...] = sv
+            pch[...] = ch
+            sv, ch = psv, pch
+    snap = [a.copy() for a in (cva, sv, ch, vc, vs, vh)]
+    S, C, t = _table(cs, cva, sv, ch, vc, vs, vh)
+    mutated = [nm for nm, a, b in zip(('cycle_vect', 'subset_vect', 'chain_vect', 'cycle_vals', 'subset_vals', 'chain_vals'),
+                                      (cva, sv, ch, vc, vs, vh), snap) if not np.array_equal(a, b, equal_nan=True)]
+    if not np.array_equal(va, va0):
+        mutated.append('valids')
+    return {'S': S, 'C': C, 'table': t, 'mutated': mutated}
 
 
 def maps_op(cv, valids, vc, vs, vh):
@@ -286,15 +320,24 @@ def check_instance(cv, valids, vc, vs, vh, out):
     if not well_formed(cv, valids):      # the property speaks about well-formed structures only
         return []
 
-    def fail(kind, detail):
-        fs.setdefault(kind, Failure(kind, 'cv=%s valids=%s: %s' % (cv, [int(bool(v)) for v in valids], detail)))
+    # an empty recording / a recording without any cycle has no "existing" cycle, subset-cycle or chain: what the
+    # routines do there is a mechanism-level observation (kept in the correspondence), not the property's words
+    degenerate = (n == 0 or K == 0)
 
+    def fail(kind, detail, literal=True):
+        fs.setdefault(kind, Failure(kind, 'cv=%s valids=%s: %s' % (cv, [int(bool(v)) for v in valids], detail),
+                                    literal=literal and not degenerate))
+
+    # How get_subset_vector / get_chain_vector NUMBER the subset cycles and chains is C15's statement; C16 speaks
+    # about the maps on the resulting structure (checked below against the set-theoretic definitions): mechanism-level.
     if [int(t) for t in T['subset_vect']] != [(-1 if s is None else s) for s in o['sub_of']]:
-        fail('subset_vect:not-rank-among-selected', 'got %s' % T['subset_vect'])
+        fail('subset_vect:not-rank-among-selected', 'got %s' % T['subset_vect'], literal=False)
     if [int(t) for t in T['chain_vect']] != o['chain_of_sub']:
-        fail('chain_vect:not-maximal-runs', 'got %s' % T['chain_vect'])
+        fail('chain_vect:not-maximal-runs', 'got %s' % T['chain_vect'], literal=False)
     if out['S'] != S or out['C'] != C:
-        fail('sizes:max-plus-one-differs', 'S=%s C=%s expected %s %s' % (out['S'], out['C'], S, C))
+        fail('sizes:max-plus-one-differs', 'S=%s C=%s expected %s %s' % (out['S'], out['C'], S, C), literal=False)
+    for nm in out.get('mutated', []):      # the property does not speak about side effects on the arguments (C19 does)
+        fail('argument-modified:%s' % nm, 'array changed by the map / projection calls', literal=False)
 
     def get(slot, idx):
         row = T[slot]
